@@ -73,7 +73,8 @@ func alphabet(thorough bool) []Op {
 		pathPayloads = append(pathPayloads,
 			`{"rtspUDPSourcePortRange":[10000,10100]}`,                // slice-valued field
 			`{"maxReaders":2,"recordPath":"bad"}`,                     // valid and invalid field in one request
-			`{"runOnInit":"true"}`,                                    // invalid on a regexp path only
+			`{"alwaysAvailable":true,"alwaysAvailableTracks":[{"codec":"H264"}]}`, // nested value; invalid on a regexp path only
+			`{"source":"rtsp://127.0.0.1:9/x"}`,                           // completes an earlier {"sourceOnDemand":true}
 		)
 		globalPayloads = append(globalPayloads, `{"writeQueueSize":1024}`, `{"writeQueueSize":1000}`)
 		defaultsPayloads = append(defaultsPayloads, `{"record":true}`)
